@@ -124,22 +124,44 @@ class ProgramOptionsSave(Contract):
                     copies.add((l_lits[0], r_lits[0]))
         # the same copy done through a small helper:  helper(vm, "alias", "canonical")  whose body assigns
         # vm.at(<canonical parameter>).value() = vm[<alias parameter>].value()
+        # ... or through a local lambda:  auto helper = [this](legacy, current) {...};  helper("alias", "canonical")
+        lambdas = {}
+        for v_ in _walk(parses[0]):
+            if v_.get('kind') == 'VarDecl' and v_.get('id'):
+                for le in _walk(v_):
+                    if le.get('kind') == 'LambdaExpr':
+                        ops_ = [m_ for m_ in _walk(le) if m_.get('kind') == 'CXXMethodDecl' and m_.get('name') == 'operator()' and any(c.get('kind') == 'CompoundStmt' for c in m_.get('inner', []))]
+                        if ops_:
+                            lambdas[v_['id']] = ops_[0]
+                        break
         for n in _walk(parses[0]):
-            if n.get('kind') != 'CallExpr':
+            call_args = None
+            if n.get('kind') == 'CXXOperatorCallExpr' and len(n.get('inner', [])) >= 2:
+                tgt = n['inner'][1]
+                while tgt.get('kind') in ('ImplicitCastExpr', 'ParenExpr'):
+                    tgt = tgt['inner'][0]
+                lid = (tgt.get('referencedDecl') or {}).get('id')
+                if lid in lambdas and any((y.get('referencedDecl') or {}).get('name') == 'operator()' for y in _walk(n['inner'][0])):
+                    fd = lambdas[lid]
+                    call_args = n['inner'][2:]
+            if call_args is None and n.get('kind') != 'CallExpr':
                 continue
-            callee = n['inner'][0]
-            while callee.get('kind') in ('ImplicitCastExpr', 'ParenExpr'):
+            if call_args is not None:
+                pass
+            else:
+              callee = n['inner'][0]
+              while callee.get('kind') in ('ImplicitCastExpr', 'ParenExpr'):
                 callee = callee['inner'][0]
-            fd = tu.byid.get((callee.get('referencedDecl') or {}).get('id'))
-            if fd is None:
+              fd = tu.byid.get((callee.get('referencedDecl') or {}).get('id'))
+            if call_args is None and fd is None:
                 fds = [f_ for f_ in tu.docs if isinstance(f_, dict) and f_.get('id') == (callee.get('referencedDecl') or {}).get('id')]
                 fd = fds[0] if fds else None
-            if fd is None or not any(c.get('kind') == 'CompoundStmt' for c in fd.get('inner', [])):
+            if call_args is None and (fd is None or not any(c.get('kind') == 'CompoundStmt' for c in fd.get('inner', []))):
                 # definition may be a later redeclaration of the same function
                 nm_ = (callee.get('referencedDecl') or {}).get('name')
                 cands = [f_ for q_, fl_ in tu.funcs.items() for f_ in fl_ if q_.split('::')[-1] == nm_]
                 fd = cands[0] if len(cands) == 1 else None
-            if fd is None:
+            if call_args is None and fd is None:
                 # a helper outside namespace vfps (e.g. in an anonymous namespace of the same file): dump it by name
                 nm_ = (callee.get('referencedDecl') or {}).get('name')
                 nlits = sum(1 for a__ in n['inner'][1:] if strlit(a__))
@@ -167,7 +189,7 @@ class ProgramOptionsSave(Contract):
                     lp = [i_ for i_ in lp if 'string' in ps_[i_]['type'].get('qualType', '') or 'char' in ps_[i_]['type'].get('qualType', '')]
                     rp = [i_ for i_ in rp if 'string' in ps_[i_]['type'].get('qualType', '') or 'char' in ps_[i_]['type'].get('qualType', '')]
                     if len(set(lp)) == 1 and len(set(rp)) == 1 and lp[0] != rp[0]:
-                        args_ = n['inner'][1:]
+                        args_ = call_args if call_args is not None else n['inner'][1:]
                         if max(lp[0], rp[0]) < len(args_):
                             cl, al = strlit(args_[lp[0]]), strlit(args_[rp[0]])
                             if cl and al:
